@@ -34,13 +34,25 @@ structure WfT (g : TryJoin) : Prop where
   rs : ∀ i, i < g.roleKids.len → (g.roleStates.get i = PS.PollState.pending ∨
         (g.roleStates.get i = PS.PollState.ready ∧ ∃ v, g.roleItems.get i = some v))
 
+/-- what is compared after a poll that COMPLETED with `Ok`: everything of `jcore` except the output slots (`OutputVec::take`
+    moved the values out to the caller and leaves the slots empty, the model's `finish` keeps its copies), and the state
+    table on the slots of the combinator only (`iter_mut().for_each(set_none)` rewrites the `len` slots that exist, the
+    model's `finish` writes `fun _ => .none`) -/
+def jcoreDone (n : Nat) (a m : Eng Fix) : Prop :=
+  a.w.mode = m.w.mode ∧ a.w.cap = m.w.cap ∧ a.w.bits = m.w.bits ∧ a.w.count = m.w.count ∧ a.w.parent = m.w.parent ∧
+  a.s.n = m.s.n ∧ (∀ i, i < n → a.s.st i = m.s.st i) ∧ a.s.cnt = m.s.cnt ∧ a.s.off = m.s.off ∧ a.s.dead = m.s.dead
+
+/- STATEMENT FIXED (W7): the clause `jcore (absT g' b) = jcore (Eng.poll tryJoinSlice (absT g b) w)` was stated for every
+   return value; it is false when the poll completes with `Ready(Ok(_))` (see `jcoreDone` and the counterexample in
+   FcProps/KTieTryJoinV.lean).  It is kept verbatim for `Pending` and `Ready(Err(_))`; for `Ready(Ok(_))` it is `jcoreDone`. -/
 def poll_tie_statement : Prop :=
   ∀ (g : TryJoin) (b : Eng Fix) (w : Nat),
     WfT g → FutStepsF b.w → (∀ c i, Wk.sub i ∈ b.w.handed c → i < g.roleKids.len) → g.roleDone = false →
     ∃ g' env' ret,
       TryJoin.poll g w ((absT g b).w.emit (.pollBegin w)) = some (g', env', ret) ∧
       (ret = .pending → WfT g') ∧
-      jcore (absT g' b) = jcore (Eng.poll tryJoinSlice (absT g b) w) ∧
+      ((∀ vs, ret ≠ .ready (.ok vs)) → jcore (absT g' b) = jcore (Eng.poll tryJoinSlice (absT g b) w)) ∧
+      ((∃ vs, ret = .ready (.ok vs)) → jcoreDone g.roleKids.len (absT g' b) (Eng.poll tryJoinSlice (absT g b) w)) ∧
       env'.scripts = (Eng.poll tryJoinSlice (absT g b) w).w.scripts ∧
       env'.handed = (Eng.poll tryJoinSlice (absT g b) w).w.handed ∧
       (Eng.poll tryJoinSlice (absT g b) w).w.trace = .pollEnd (outcomeOfTryJoin ret) :: env'.trace
